@@ -217,6 +217,27 @@ func LogLines() []string {
 	return strings.Split(s, "\n")
 }
 
+// Lazy makes *ptr a lazily initialised (symbolic) value of its static type,
+// explored to the given depth. Only meaningful under GSX; counterexamples of
+// lazy harnesses are replayed as realised Go programs, not through this API.
+func Lazy(name string, depth int, ptr interface{}) {
+	panic("gsxrt.Lazy is only available under the symbolic executor")
+}
+
+// ProtectNew marks lazily created objects as read-only for the write monitor.
+func ProtectNew(on bool) {}
+
+// Field reads an unexported field (executor only).
+func Field(x interface{}, name string) interface{} {
+	panic("gsxrt.Field is only available under the symbolic executor")
+}
+
+// FocusOn restricts lazy AST node kinds to those the code behind v distinguishes (executor only).
+func FocusOn(v interface{}) {}
+
+// TypeName returns the dynamic type of x as printed by go/types.
+func TypeName(x interface{}) string { return fmt.Sprintf("%T", x) }
+
 // Symbolic reports whether the harness runs under the symbolic executor.
 func Symbolic() bool { return false }
 
